@@ -28,6 +28,26 @@ THEOREM SlashWithinHolding ==
     BY DEF SlashAmt
 <1> QED BY <1>2, <1>3
 
+(* C12: the emission step moves at most what is scheduled and at most what is left of the grants; nothing is created or lost *)
+THEOREM EmissionConserves ==
+  \A scheduled \in Nat, remain \in Nat, goat \in Nat :
+     LET m == EmissionMove(scheduled, remain) IN
+     /\ m \in Nat /\ m <= scheduled /\ m <= remain
+     /\ (remain - m) >= 0
+     /\ (remain - m) + (goat + m) = remain + goat
+  BY DEF EmissionMove, Min
+
+(* C12: a validator's share never exceeds the pool it is taken from (its power is part of the total) and is never negative *)
+THEOREM ShareWithinPool ==
+  \A pool \in Nat, p \in Nat, P \in Nat :
+     (P > 0 /\ p <= P) => (FloorShare(pool, p, P) <= pool /\ FloorShare(pool, p, P) \in Nat)
+<1> SUFFICES ASSUME NEW pool \in Nat, NEW p \in Nat, NEW P \in Nat, P > 0, p <= P
+             PROVE FloorShare(pool, p, P) <= pool /\ FloorShare(pool, p, P) \in Nat
+    OBVIOUS
+<1>1. pool * p \in Nat /\ pool * p <= pool * P
+    BY MulLe
+<1> QED BY <1>1, DivLe DEF FloorShare
+
 THEOREM UnlockWithinBounds ==
   \A asked \in Nat, held \in Nat :
      /\ UnlockAmt(asked, held) <= asked /\ UnlockAmt(asked, held) <= held
